@@ -101,6 +101,17 @@ CHECKS = {
              "generator.close() and an exception leaving a with-block; afterwards the simulated socket must be closed (or finalised) "
              "and the selector closed while the WebSocket object is still alive.",
         note="CPython reference counting finalises the dropped generator; gc.collect() is run before a leak is reported."),
+    "C10": dict(
+        category="exploration", design_ref="DESIGN.md section 3 / C10",
+        technique="property-based testing: generated URLs/options/replies; request parsed by an independent strict HTTP parser, verdict compared with an independent digest + RFC 7230 interpretation oracle",
+        text="Hypothesis draws URL shapes, options, 16-byte keys (served through os.urandom; two connects per object) and replies "
+             "from an RFC 7230-valid grammar (status, header order/casing/OWS/folding/duplicates, Upgrade variants, 17 accept "
+             "classes, block sizes around 16 KiB with/without terminator, read segmentation, a frame in the same stream). The "
+             "request must parse under a strict independent parser with exactly the required fields and the key drawn for this "
+             "connect; Ready iff 101 + Upgrade websocket + exact digest, with negotiated protocol/extensions; otherwise "
+             "Rejected/ProtocolError, no Ready, no message events, socket released. A full accept x Upgrade x status grid is "
+             "enumerated. One open known finding (case-insensitive accept comparison) is excluded by a narrow signature.",
+        note="Meaning of generated replies is computed from the generator's structure (httpref.interpret_reply), digest by hashlib."),
 }
 
 PENDING = {}
